@@ -297,6 +297,7 @@ struct HSearch
   int full_depth = 0;             // depth of the search over the full alphabet (base + setter;set_up(equal geometry) operations)
   int setters_depth = 0;          // depth of the search over gets + setter;set_up operations, default cache mode (basic bins only)
   int setters_depth_all_bins = 0; // the same, matrix initially caching all bins
+  bool all_bins_without_symmetry_setters = false; // quick tier: the all-bins search leaves out the 5 symmetry switch setters (rows in the cache do not depend on them)
 };
 
 struct HRefSet
@@ -389,9 +390,7 @@ static bool prepare_H(vmc::Ctx& ctx, HWorld& w)
     {
       if (small::throws([&] { w.b2[k] = g34::build(w.hs.g[k]); }, &what)) { ctx.count("rejected_configs"); return false; }
       w.delta[k] = g34::delta_of(*w.b[k].pdi, *w.b[k].im);
-      for (int L = 1; L <= 3; ++L)
-        for (int fov = 1; fov >= 0; --fov)
-          if (!make_refs(ctx, w, k, L, fov, 0, -1)) { ctx.count("rejected_configs"); return false; }
+      if (!make_refs(ctx, w, k, 1, 1, 0, -1)) { ctx.count("rejected_configs"); return false; } // the other settings: on first use in build_H
       {
         auto m = make_rt(0, 0, 1, true);
         m->set_use_actual_detector_boundaries(true);
@@ -579,9 +578,10 @@ static void run_H(vmc::Ctx& ctx, const HSearch& hs, uint64_t& unit)
   struct Pass { const char* tag; std::vector<int> alpha; int depth; int init_cache; };
   std::vector<Pass> passes;
   {
-    std::vector<int> base, fullv, setters;
+    std::vector<int> base, fullv, setters, value_setters;
     for (int o = 0; o < nops_all; ++o)
       {
+        if (o < w.nget || (o >= nops_all - N_EXT_OPS && o < nops_all - 5)) value_setters.push_back(o); // without the 5 symmetry switches
         fullv.push_back(o);
         if (o < nops_all - N_EXT_OPS) base.push_back(o);
         if (o < w.nget || o >= nops_all - N_EXT_OPS) setters.push_back(o);
@@ -589,7 +589,8 @@ static void run_H(vmc::Ctx& ctx, const HSearch& hs, uint64_t& unit)
     if (hs.depth > hs.full_depth) passes.push_back({ "base", base, hs.depth, 2 });
     if (hs.full_depth > 0) passes.push_back({ "full", fullv, hs.full_depth, 2 });
     if (hs.setters_depth > hs.full_depth) passes.push_back({ "setters", setters, hs.setters_depth, 2 });
-    if (hs.setters_depth_all_bins > 0) passes.push_back({ "setters_cache_all_bins", setters, hs.setters_depth_all_bins, 1 });
+    if (hs.setters_depth_all_bins > 0)
+      passes.push_back({ hs.all_bins_without_symmetry_setters ? "value_setters_cache_all_bins" : "setters_cache_all_bins", hs.all_bins_without_symmetry_setters ? value_setters : setters, hs.setters_depth_all_bins, 1 });
   }
   for (const Pass& P : passes)
   {
@@ -689,8 +690,8 @@ static std::vector<HSearch> searches(bool thorough)
   std::vector<HSearch> v;
   auto G = [](int D, int R, int span, int nz, int nxy, int vxy = 100, int zd = 2) { Geo g; g.D = D; g.R = R; g.span = span; g.nz = nz; g.nxy = nxy; g.vxy = vxy; g.zd = zd; return g; };
   auto add = [&](int sym, Geo g0, Geo g1, Geo g2, int depth) { HSearch s; s.id = (int)v.size(); s.sym = sym; s.g[0] = g0; s.g[1] = g1; s.g[2] = g2; s.depth = depth;
-    // quick: gets + setters to depth 3 from a matrix caching basic bins only / all bins, first search only; thorough: gets + setters to depth 3 in both cache modes for every search, and the full alphabet to depth 4 for the first two searches (a full set_up costs ~4 ms: FastErf table)
-    s.full_depth = (thorough && v.size() < 2) ? 4 : 0; s.setters_depth = (thorough || v.empty()) ? 3 : 0; s.setters_depth_all_bins = (thorough || v.empty()) ? 3 : 0;
+    // quick: gets + setters to depth 3 from a matrix caching basic bins only / all bins (the latter without the symmetry switch setters), first search only; thorough: gets + setters to depth 3 in both cache modes for every search, and the full alphabet to depth 4 for the first two searches (a full set_up costs ~4 ms: FastErf table)
+    s.full_depth = (thorough && v.size() < 2) ? 4 : 0; s.setters_depth = (thorough || v.empty()) ? 3 : 0; s.setters_depth_all_bins = (thorough || v.empty()) ? 3 : 0; s.all_bins_without_symmetry_setters = !thorough;
     v.push_back(s); };
   const int d = thorough ? 5 : 4;
   // G1: other projection data (more rings) ; G2: same projection data and voxel size, other number of planes / xy size
